@@ -63,6 +63,7 @@ type VC struct {
 	ufDecl  map[string]bool
 	notes   map[string]bool // assumptions / abstractions used (for evidence)
 	usedUF  map[string]bool
+	atMatched map[string]bool // at-call anchors that matched a call site
 	old     *State
 	names   map[string]int // obligation name de-duplication
 	dry     int            // >0: dry run (loop scanning); output discarded
@@ -73,7 +74,7 @@ type VC struct {
 
 func newVC(e *Engine, unit string) *VC {
 	vc := &VC{e: e, unit: unit, cols: map[string]Sort{}, colDecl: map[string]bool{}, ufDecl: map[string]bool{},
-		notes: map[string]bool{}, names: map[string]int{}, usedUF: map[string]bool{}}
+		notes: map[string]bool{}, names: map[string]int{}, usedUF: map[string]bool{}, atMatched: map[string]bool{}}
 	vc.declare("alloc0", SInt)
 	vc.assert(mkLe("1", "alloc0"))
 	vc.old = &State{guard: "true", heap: map[string]Term{}, alloc: "alloc0"}
